@@ -500,7 +500,7 @@ Proof. vm_compute. reflexivity. Qed.
 Definition ex_label : label N :=
   mkl 2%nat [ (7%N, n1_ps);
               (8%N, [ mkps 3%Z (mkobj KAtt 0%N 6%N) (PSig 8 3 6); mkps 1%Z (mkobj KAtt 44%N 6%N) (PSig 8 1 6) ]) ]
-      [true; true] 0%N None
+      [true; true] 0%N (1%N, 3%N) [] None
       [ [ (7%N, mkpo KTyped 0%N 5%N true); (8%N, mkpo KAtt 44%N 6%N true) ];
         [ (8%N, mkpo KAtt 44%N 6%N true); (7%N, mkpo KTyped 0%N 5%N true) ] ].
 Example ex_label_accepted : run N (fun c => c) init [ex_label] = Some tt.
@@ -510,9 +510,9 @@ Proof. vm_compute. reflexivity. Qed.
 Definition ex_bad : label N :=
   mkl 2%nat [ (7%N, n1_ps);
               (8%N, [ mkps 3%Z (mkobj KAtt 0%N 6%N) (PSig 8 3 6); mkps 1%Z (mkobj KAtt 44%N 9%N) (PSig 8 1 9) ]) ]
-      [true] 2%N (Some EVerify) [].
+      [true] 2%N (1%N, 3%N) [(1%N, 100%N)] (Some EVerify) [].
 Example ex_bad_accepted : accepts N (fun c => c) ex_bad = true.
 Proof. vm_compute. reflexivity. Qed.
 Example ex_bad_with_call_refused :
-  accepts N (fun c => c) (mkl 2%nat (l_batch _ ex_bad) [true] 0%N None [ [ (7%N, mkpo KTyped 0%N 5%N true) ] ]) = false.
+  accepts N (fun c => c) (mkl 2%nat (l_batch _ ex_bad) [true] 0%N (1%N, 3%N) [] None [ [ (7%N, mkpo KTyped 0%N 5%N true) ] ]) = false.
 Proof. vm_compute. reflexivity. Qed.
